@@ -40,6 +40,31 @@ Theorem C28_codec_hash_option_refuted : exists e, starts_hash (join 44 (e_opts e
 Proof. exact refuted_hash_option. Qed.
 Print Assumptions C28_codec_hash_option_refuted.
 
+(* what the code itself holds after reading a profile: every entry ParseMountEntry returns from a line with at least four
+   fields meets the guard - whatever bytes the line had (escapes, x-snapd.* options with = and spaces, # inside fields) -
+   and is therefore written back and read again unchanged *)
+Theorem C28_parsed_meets_guard : forall s e, parse_entry s = Some e -> e_opts e <> [] -> guard e = true.
+Proof. exact parsed_meets_guard. Qed.
+Print Assumptions C28_parsed_meets_guard.
+
+Theorem C28_loaded_entry_roundtrip : forall s e,
+  parse_entry s = Some e -> e_opts e <> [] -> parse_entry (entry_string e) = Some e.
+Proof. exact loaded_entry_roundtrip. Qed.
+Print Assumptions C28_loaded_entry_roundtrip.
+
+(* ... the two shapes the code can hold that do not read back: a three field line (no options -> defaults), and the
+   bind entries planWritableMimic records with an empty type (written and read back as none). Both are in the driver's
+   edge list and run on the real codec every time; since the change driver saves and reloads the current profile as
+   text between updates, the second one is also exercised through executeMountProfileUpdate histories. *)
+Theorem C28_three_field_line_refuted : exists s e, parse_entry s = Some e /\ parse_entry (entry_string e) <> Some e.
+Proof. exact three_field_line_refuted. Qed.
+Print Assumptions C28_three_field_line_refuted.
+
+Theorem C28_empty_type_refuted :
+  exists e, e_type e = [] /\ parse_entry (entry_string e) = Some (mkEntry (e_name e) (e_dir e) none_lit (e_opts e) (e_freq e) (e_pass e)).
+Proof. exact empty_type_refuted. Qed.
+Print Assumptions C28_empty_type_refuted.
+
 (* whole profiles: WriteTo then ReadMountProfile gives the same entry list, provided every entry is guarded and no
    line begins with a white-space rune that strings.TrimSpace removes but escape leaves alone (\v \f \r U+0085 U+00A0
    U+1680 U+2000-200A U+2028 U+2029 U+202F U+205F U+3000) *)
@@ -188,9 +213,30 @@ Theorem C28_unmount_later_first : forall fs current desired p c,
   precedes (detach_form c) (detach_form p) (unmounts_of (needed_changes fs current desired)).
 Proof. exact unmount_later_first. Qed.
 Print Assumptions C28_unmount_later_first.
-(* Over whole histories the sentence fails on the real code: kept entries are recorded in reverse, so a later update
-   unmounts a parent before its child (KNOWN_FINDINGS key unmount-order-after-keep, notes/C28-fix.diff; monitored by
-   the order driver with the true mount ages). *)
+(* what is saved as the new current profile when every change is performed: the kept entries in REVERSE of their order
+   in the current profile, then the mounted entries *)
+Theorem C28_recorded_profile : forall fs current desired,
+  let cur := map clean_entry current in
+  let des := isort less_origin (map clean_entry desired) in
+  let reuse := reuse_of current desired in
+  recorded (needed_changes fs current desired) =
+  rev (filter (fun e => id_mem (id_of e) reuse) cur) ++
+  mount_order fs (filter (fun e => negb (id_mem (id_of e) reuse)) des).
+Proof. exact recorded_needed_changes. Qed.
+Print Assumptions C28_recorded_profile.
+
+(* ... which is why, over whole histories, the sentence [never unmount an entry before the entries mounted beneath it
+   after it] is false (KNOWN_FINDINGS key unmount-order-after-keep, notes/C28-fix.diff; monitored by the order driver
+   with the true mount ages): mount /a and /a/b, keep both, remove both - /a goes first. C28_unmount_order and
+   C28_unmount_later_first above are the guarded form: they hold for every current profile, read as the mount log. *)
+Theorem C28_unmount_order_history_refuted :
+  exists fs a ab,
+    let c1 := recorded (needed_changes fs [] [a; ab]) in
+    let c2 := recorded (needed_changes fs c1 [a; ab]) in
+    beneath ab a = true /\ c1 = [a; ab] /\ c2 = [ab; a] /\
+    unmounts_of (needed_changes fs c2 []) = [detach_form a; detach_form ab].
+Proof. exact unmount_order_history_refuted. Qed.
+Print Assumptions C28_unmount_order_history_refuted.
 
 (* mounts: among the Mount changes an entry comes before every entry of the same origin whose directory lies beneath
    its own (parents before children). Hypotheses, all about the pair: the two trailing-slash sort keys differ (true for
@@ -211,6 +257,17 @@ Theorem C28_mount_order : forall fs current desired m1 m2,
   precedes (Mount, m1) (Mount, m2) nc.
 Proof. exact mount_parent_first. Qed.
 Print Assumptions C28_mount_order.
+
+(* the mimic-root hypothesis is needed only when both entries need a writable mimic: when the targets exist (the usual
+   case after the first update) parents come first without it *)
+Theorem C28_mount_order_existing_targets : forall fs current desired m1 m2,
+  let nc := needed_changes fs current desired in
+  In (Mount, m1) nc -> In (Mount, m2) nc ->
+  x_origin m1 = x_origin m2 -> beneath m2 m1 = true -> with_slash (e_dir m1) <> with_slash (e_dir m2) ->
+  is_overname m2 || exists_as fs m2 = true -> is_overname m1 || exists_as fs m1 = true ->
+  precedes (Mount, m1) (Mount, m2) nc.
+Proof. exact mount_parent_first_existing. Qed.
+Print Assumptions C28_mount_order_existing_targets.
 
 (* the sort really sorts: in the output of the insertion sort a strictly smaller element comes first *)
 Theorem C28_sort_orders : forall l a b, In a l -> In b l -> less_origin a b = true -> precedes a b (isort less_origin l).
@@ -243,3 +300,38 @@ Example C28_changes_example :
   needed_changes fs [a; b] [b'; a] =
     [(Unmount, set_opts b [bs "bind"%string; bs "x-snapd.detach"%string]); (Keep, a); (Mount, b')].
 Proof. vm_compute. reflexivity. Qed.
+
+Local Open Scope string_scope.
+
+(* the hypotheses of the planning theorems hold together on an update with a mimic helper, a kept parent, a changed child,
+   a new layout needing a mimic and an overname entry; the conclusions are visible in the computed list *)
+Example C28_hypotheses_example :
+  let e := fun (n d t : string) (o : list string) => mkEntry (bs n) (bs d) (bs t) (map bs o) 0 0 in
+  let mimic := e "tmpfs" "/t/m" "tmpfs" ["x-snapd.synthetic"; "x-snapd.needed-by=/t/m/x"]%string in
+  let mx := e "/s/x" "/t/m/x" "none" ["bind"; "x-snapd.origin=layout"]%string in
+  let a := e "/s/a" "/t/a" "none" ["bind"]%string in
+  let b := e "/s/b" "/t/a/b" "none" ["bind"]%string in
+  let b' := e "/s/b2" "/t/a/b" "none" ["bind"]%string in
+  let n := e "/s/n" "/t/q/n" "none" ["bind"; "x-snapd.origin=layout"]%string in
+  let o := e "/s/o" "/t/o" "none" ["rbind"; "x-snapd.origin=overname"]%string in
+  let fs := mkFs (map bs ["/"; "/t"; "/t/a"; "/t/a/b"; "/t/m"; "/t/m/x"; "/t/o"]%string) [] [] in
+  let cur := [mimic; mx; a; b] in
+  let des := [n; b'; a; mx; o] in
+  distinct_b (map e_dir (map clean_entry des)) = true /\
+  distinct_b (map sort_key (map clean_entry cur)) = true /\
+  forallb (fun d => negb (shadowed (map x_entry_id des) cur d)) des = true /\
+  needed_changes fs cur des =
+    [(Unmount, set_opts b (map bs ["bind"; "x-snapd.detach"]%string)); (Keep, a); (Keep, mx); (Keep, mimic);
+     (Mount, o); (Mount, b'); (Mount, n)] /\
+  apply_changes cur (needed_changes fs cur des) = Some [mimic; mx; a; o; b'; n].
+Proof. vm_compute. repeat split; reflexivity. Qed.
+
+(* lines full of escapes, x-snapd options and a trailing comment parse to guarded entries and survive the round trip *)
+Example C28_loaded_example :
+  let line := bs "/my\040dir/x\134y /tmp/a\011b none bind,x-snapd.symlink=/a\040b,x-snapd.origin=layout 0 0 # note"%string in
+  match parse_entry line with
+  | Some e => guard e = true /\ parse_entry (entry_string e) = Some e /\
+              e_name e = bs "/my dir/x\y"%string /\ e_opts e = map bs ["bind"; "x-snapd.symlink=/a b"; "x-snapd.origin=layout"]%string
+  | None => False
+  end.
+Proof. vm_compute. repeat split; reflexivity. Qed.
